@@ -168,6 +168,78 @@ fn lm_first_step<S: Sc>(seed: i64, analytic: bool) {
     S::prove_m("lm/first-trial-is-damped-normal-equation-step(1)", S::b_close(trial[1], t0[1] + d1, S::lit(1e-7)), S::b_gt((trial[1] - (t0[1] + d1)).sabs(), S::lit(1e-3)));
 }
 
+
+/// Levenberg-Marquardt damping schedule (analytic Jacobian, model theta0 + theta1*x): the parameter vectors handed to
+/// the model are, in order, the start, the trial of the initial damping search, and per main-loop iteration the trials
+/// with damping lambda_k and lambda_k / mult.  Observed through the model closure: the SECOND iteration's trials are
+/// the damped normal-equation steps from the first iteration's accepted point with lambda_1 = lambda_0 / mult when the
+/// reduced-damping trial won (lambda_0 otherwise).  A damping that is never relaxed turns the superlinear
+/// convergence on linear models into a linear one with ratio lambda/(1+lambda): budgets of model calls are then
+/// exceeded for large initial damping.
+fn lm_damping_schedule<S: Sc>(seed: i64, n: usize, damping: f64, mult: f64) {
+    let xs: Vec<S> = abscissae(seed, n).into_iter().map(S::lit).collect();
+    let ys = inputs::<S>("y", n, -YB, YB);
+    let t0 = inputs::<S>("theta", 2, -2.0, 2.0);
+    let prm: CurveFitParams<S> = CurveFitParams { damping: S::lit(damping), tolerance: S::lit(1e-9), h: S::lit(0.125), damping_mult: S::lit(mult) };
+    let log: RefCell<Vec<P2<S>>> = RefCell::new(vec![]);
+    let budget = 7 * n;
+    let model = |x: S, p: &P2<S>| -> S {
+        log.borrow_mut().push(*p);
+        if log.borrow().len() > budget {
+            std::panic::panic_any(crate::eng::CutPath("model call budget (two LM iterations observed)".into()));
+        }
+        p[0] + p[1] * x
+    };
+    let _ = until_stop("model call budget", || {
+        let _ = curve_fit_jac(model, &xs, &ys, &t0, |x: S, _p: &P2<S>| P2::<S>::new(S::lit(1.0), x), &prm);
+    });
+    // distinct consecutive parameter vectors
+    let calls = log.borrow();
+    let mut groups: Vec<P2<S>> = vec![];
+    for p in calls.iter() {
+        if groups.last().map_or(true, |q| q[0].ident() != p[0].ident() || q[1].ident() != p[1].ident()) {
+            groups.push(*p);
+        }
+    }
+    if groups.len() < 6 {
+        // converged (or stopped) before a second iteration: nothing to observe on this path
+        return;
+    }
+    S::reach("lm-second-iteration");
+    let (a1, b1, a2, b2) = (groups[2], groups[3], groups[4], groups[5]);
+    let resid = |p: &P2<S>| {
+        let mut r = S::lit(0.0);
+        for i in 0..n {
+            let d = ys[i] - (p[0] + p[1] * xs[i]);
+            r = r + d * d;
+        }
+        r
+    };
+    let step = |p: &P2<S>, lam: f64| -> P2<S> {
+        let (mut s1, mut sx, mut sxx) = (S::lit(0.0), S::lit(0.0), S::lit(0.0));
+        let (mut g0, mut g1) = (S::lit(0.0), S::lit(0.0));
+        for i in 0..n {
+            let r = ys[i] - (p[0] + p[1] * xs[i]);
+            s1 = s1 + S::lit(1.0);
+            sx = sx + xs[i];
+            sxx = sxx + xs[i] * xs[i];
+            g0 = g0 + r;
+            g1 = g1 + r * xs[i];
+        }
+        let l = S::lit(1.0 + lam);
+        let (m00, m01, m11) = (s1 * l, sx, sxx * l);
+        let det = m00 * m11 - m01 * m01;
+        P2::<S>::new(p[0] + (g0 * m11 - g1 * m01) / det, p[1] + (g1 * m00 - g0 * m01) / det)
+    };
+    let reduced_won = resid(&b1) < resid(&a1);
+    let (p1, lam1) = if reduced_won { (b1, damping / mult) } else { (a1, damping) };
+    let (ra, rb) = (step(&p1, lam1), step(&p1, lam1 / mult));
+    for d in 0..2 {
+        S::prove_m("lm/second-iteration-trial-uses-the-relaxed-damping", S::b_close(a2[d], ra[d], S::lit(1e-7)), S::b_gt((a2[d] - ra[d]).sabs(), S::lit(1e-4)));
+        S::prove_m("lm/second-iteration-reduced-trial-uses-the-relaxed-damping", S::b_close(b2[d], rb[d], S::lit(1e-7)), S::b_gt((b2[d] - rb[d]).sabs(), S::lit(1e-4)));
+    }
+}
+
 /// data generated by the model, start at the true parameters: both variants terminate and return them
 fn lm_fixed_point<S: Sc>(seed: i64, analytic: bool) {
     let xs: Vec<S> = abscissae(seed, 4).into_iter().map(S::lit).collect();
@@ -239,7 +311,7 @@ fn lm_errors<S: Sc>(analytic: bool) {
 
 pub fn run(pr: &mut PropRun, t: &Tier) {
     pr.funcs(&["optimize::linear_fit", "optimize::{curve_fit,curve_fit_jac,initial_residuals,initial_residuals_exact,jac_finite_differences,jac_analytic}", "nalgebra DMatrix LU solve as used by them"]);
-    pr.bound("linear_fit: abscissae and ordinates symbolic for n <= 4 (well-conditioned design assumed), seeded concrete abscissae with symbolic ordinates up to n = 24 (quick) / 60 (thorough); Levenberg-Marquardt: model theta0 + theta1*x on 4 seeded abscissae, ordinates and start symbolic, damping/multiplier seeded: the FIRST trial parameter vector (observed through the model closure) must be the damped normal-equation step with the true Jacobian, for the finite-difference and the analytic variant; start at the optimum returns it; argument validation with symbolic tolerance, width and damping");
+    pr.bound("linear_fit: abscissae and ordinates symbolic for n <= 4 (well-conditioned design assumed), seeded concrete abscissae with symbolic ordinates up to n = 24 (quick) / 60 (thorough); Levenberg-Marquardt: model theta0 + theta1*x on 4 seeded abscissae, ordinates and start symbolic, damping/multiplier seeded: the FIRST trial parameter vector (observed through the model closure) must be the damped normal-equation step with the true Jacobian, for the finite-difference and the analytic variant; start at the optimum returns it; the SECOND iteration's two trial vectors (analytic variant, 3 abscissae, 3 seeded damping/multiplier pairs including damping 500) are the damped normal-equation steps from the first iteration's accepted point with the relaxed damping; argument validation with symbolic tolerance, width and damping");
     pr.outside("Levenberg-Marquardt run to convergence from a start away from the optimum, non-linear models, the agreement of both variants at convergence (measured: the accumulated quadratic path conditions exceed the solver after 3 iterations)");
     for n in [3usize, 4] {
         let mut cfg = t.cfg(&format!("C17:linear_fit(n={},symbolic-x)", n));
@@ -249,6 +321,13 @@ pub fn run(pr: &mut PropRun, t: &Tier) {
     for n in (if t.thorough { vec![3usize, 8, 24, 60] } else { vec![3usize, 8, 24] }) {
         run_h!(pr, t.cfg(&format!("C17:linear_fit(n={})", n)), linear, t.seed, n, false);
         run_h!(pr, t.cfg(&format!("C17:linear_fit-exact(n={})", n)), linear_exact, t.seed, n);
+    }
+    for (damping, mult) in [(2.0, 1.5), (500.0, 1.5), (0.75, 2.5)] {
+        let mut cfg = t.cfg(&format!("C17:lm-damping-schedule(analytic-jacobian,damping={},mult={})", damping, mult));
+        cfg.max_decisions = 200;
+        cfg.max_paths = 100;
+        cfg.query_timeout_s = if t.thorough { 60.0 } else { 15.0 };
+        run_h!(pr, cfg, lm_damping_schedule, t.seed, 3, damping, mult);
     }
     for analytic in [false, true] {
         let v = if analytic { "analytic-jacobian" } else { "finite-difference-jacobian" };
